@@ -273,7 +273,11 @@ func stateStr(st *specqbft.State, stopped bool) string {
 			ms = append(ms, msgStr(m))
 		}
 	}
-	return fmt.Sprintf("%d:%d:%s:%s:[%s]", st.Height, st.Round, b01(st.Decided), b01(stopped), strings.Join(ms, ";"))
+	acc := "-"
+	if st.ProposalAcceptedForCurrentRound != nil {
+		acc = strconv.Itoa(rootID(st.ProposalAcceptedForCurrentRound.Message.Root))
+	}
+	return fmt.Sprintf("%d:%d:%s:%s:%s:[%s]", st.Height, st.Round, b01(st.Decided), b01(stopped), acc, strings.Join(ms, ";"))
 }
 
 func storedStr(s *qbftstorage.StoredInstance) string {
@@ -578,7 +582,14 @@ func (h *harness) do(line string) {
 		ht, rd, root, sg := atoi(a["h"]), atoi(a["r"]), atoi(a["root"]), parseSigners(a["s"])
 		msg := decidedMsg(ht, rd, root, sg, a["ok"] != "0")
 		isDecided := controller.IsDecidedMsg(share, msg)
-		ok := n.ctrl.BaseMsgValidation(msg) == nil && (!isDecided || controller.ValidateDecided(n.cfg, msg, share) == nil)
+		// the `ok` fact: identifier + ValidateDecided for a decided message; identifier + BaseCommitValidation (type, height,
+		// signers, signature) for a commit below quorum, which takes the ordinary commit path
+		ok := n.ctrl.BaseMsgValidation(msg) == nil
+		if isDecided {
+			ok = ok && controller.ValidateDecided(n.cfg, msg, share) == nil
+		} else {
+			ok = ok && instance.BaseCommitValidation(n.cfg, msg, msg.Message.Height, share.Committee) == nil
+		}
 		op := fmt.Sprintf("decided h=%d r=%d root=%d s=%s ok=%s via=%s", ht, rd, root, signersOut(sg), b01(ok), a["via"])
 		storeFail := a["sf"] == "1"
 		if storeFail {
@@ -782,7 +793,7 @@ func (h *harness) genCase(r *hx.Rng) {
 		return "c"
 	}
 	// scripted openings that reach the deep states random walks rarely hit; the random walk continues from there
-	switch t := r.Intn(12); t {
+	switch t := r.Intn(13); t {
 	case 0, 1: // a decided message for a past height (started-but-undecided height above it), restart, the height again
 		lo := r.Intn(maxH - 3)
 		if lowStart {
@@ -816,6 +827,22 @@ func (h *harness) genCase(r *hx.Rng) {
 		h.do(fmt.Sprintf("commits root=%d vc=%d", 100+2*ht, r.Intn(2)))
 		h.do(fmt.Sprintf("restart full=%s reopen=%s", b01(full), b01(r.Chance(20))))
 		h.do(fmt.Sprintf("start %d", ht))
+	case 6: // single commits (below quorum) for an instance that decided through the commit exchange: duplicate / one more commit
+		ht := r.Intn(maxH)
+		h.run.Tag("script:single-commits-after-quorum")
+		h.do(fmt.Sprintf("start %d", ht))
+		h.do(fmt.Sprintf("commits root=%d vc=1", 100+2*ht))
+		h.do(fmt.Sprintf("decided h=%d r=1 root=%d s=%d ok=1 via=%s", ht, 100+2*ht, 1+r.Intn(4), via()))
+		h.do(fmt.Sprintf("decided h=%d r=1 root=%d s=4 ok=1 via=%s", ht, 100+2*ht, via()))
+		if r.Bool() {
+			h.do(fmt.Sprintf("start %d", ht+1+r.Intn(2)))
+		}
+		h.do(fmt.Sprintf("restart full=%s reopen=%s", b01(full), b01(r.Chance(20))))
+		okv := 1
+		if r.Chance(10) {
+			okv = 0
+		}
+		h.do(fmt.Sprintf("decided h=%d r=%d root=%d s=%d ok=%d via=%s", ht, 1+r.Intn(2), 100+2*ht+r.Intn(2)*r.Intn(2), 1+r.Intn(4), okv, via()))
 	case 2, 3: // certificates of several rounds for one height, compaction or restart in between
 		ht := 1 + r.Intn(maxH-1)
 		h.run.Tag("script:multi-round-certs")
@@ -857,8 +884,10 @@ func (h *harness) genCase(r *hx.Rng) {
 		case c < 80:
 			ht := near()
 			sg := subsets[r.Intn(len(subsets))]
-			if r.Chance(4) {
-				sg = [][]int{{1, 2}, {3}, {2, 4}}[r.Intn(3)] // below quorum: not a decided message
+			if r.Chance(9) {
+				// below quorum: not a decided message; takes the ordinary commit path (a single signer can be accepted by an
+				// instance that ran the proposal/prepare/commit exchange: duplicate, or one more commit)
+				sg = [][]int{{1, 2}, {3}, {2, 4}, {4}, {1}, {4}}[r.Intn(6)]
 			}
 			root := 100 + 2*ht
 			if r.Chance(3) {
@@ -872,7 +901,11 @@ func (h *harness) genCase(r *hx.Rng) {
 			if r.Chance(8) {
 				sf = " sf=1"
 			}
-			h.do(fmt.Sprintf("decided h=%d r=%d root=%d s=%s ok=%d via=%s%s", ht, 1+r.Intn(3), root, signersOut(sg), ok, via(), sf))
+			rd := 1 + r.Intn(3)
+			if len(sg) == 1 && r.Chance(70) {
+				rd = 1
+			}
+			h.do(fmt.Sprintf("decided h=%d r=%d root=%d s=%s ok=%d via=%s%s", ht, rd, root, signersOut(sg), ok, via(), sf))
 		case c < 87:
 			h.do(fmt.Sprintf("compact %d", near()))
 		default:
